@@ -690,6 +690,11 @@ func (fc *FnCtx) finish() {
 				if r, ok := fc.regs[a].(*Term); ok {
 					fc.finalVals[name] = envVar{r, a.Type()}
 				}
+			} else if ad, ok := fc.regs[a].(*Addr); ok && ad.Kind == aHeap && len(ad.Path) == 0 && strings.HasPrefix(ad.Key, "C:") {
+				// an address-taken local of scalar/reference type: its cell content in the exit heap
+				srt := fc.so.Sort(et)
+				m := fc.heapGet(exit, ad.Key, ArraySort("Ref", srt))
+				fc.finalVals[name] = envVar{tb.Select(m, ad.Ref), et}
 			}
 			continue
 		}
